@@ -90,6 +90,9 @@ def exact_cases(chk: Check, n, family, with_gen):
         if c["kind"] == "mapping":
             m = tt.SampleRatio({"c": 1, "t": 1}, method=c["method"], correction=c["corr"])
             m.ratio = {"t": c["a"], "c": c["b"]}
+            if (c["cc"] + c["ct"]) % 2:
+                # the mapping may list more variants than the two being compared: the others must be irrelevant
+                m.ratio = {"other": F(7, 3), "t": c["a"], "c": c["b"], "x2": F(1, 5)}
         else:
             m = tt.SampleRatio(int(c["a"]), method=c["method"], correction=c["corr"])
         inp = dict(method=c["method"], correction=c["corr"], control_count=c["cc"], treatment_count=c["ct"],
@@ -177,7 +180,8 @@ def float_mode(chk: Check, n):
         chk.branch("float:relations")
         p1 = tt.SampleRatio(r, method=method, correction=corr).analyze({0: A(cc), 1: A(ct)}, 0, 1)
         p2 = tt.SampleRatio(1 / r, method=method, correction=corr).analyze({0: A(ct), 1: A(cc)}, 0, 1)
-        p3 = tt.SampleRatio({0: 1, 1: r}, method=method, correction=corr).analyze({0: A(cc), 1: A(ct)}, 0, 1)
+        mapping = {0: 1, 1: r} if i % 2 else {2: 3.0, 0: 1, 1: r, 3: 0.5}     # extra variants in the mapping: irrelevant
+        p3 = tt.SampleRatio(mapping, method=method, correction=corr).analyze({0: A(cc), 1: A(ct)}, 0, 1)
         inp = dict(control=cc, treatment=ct, ratio=r, method=method, correction=corr)
         if (p1.control, p1.treatment) != (cc, ct):
             chk.fail("counts are not reported as they are", dict(input=inp, observed=[p1.control, p1.treatment]))
